@@ -96,11 +96,11 @@ theorem room_init {base limit n : Nat} (hb : 0 < base) (hl : base + 128 ≤ limi
   omega
 
 /-- the entry state of the machine: integer parameters in the word registers, empty heap -/
-theorem x3_init {mc : MonCfg} {α : Word → Word} {args : List Word} {regs : Array (Option Word)} {e a : Nat}
+theorem x3_init {mc : MonCfg} {cw : Nat → Word} {τ : Nat → Nat → Word} {args : List Word} {regs : Array (Option Word)} {e a : Nat}
     {Γ : Ctx} (hr : entryRegs args = some regs) (hlen : Γ.length = args.length)
     (hext : ∀ b ∈ Γ, b.chi = .ext) (hcap : Γ.length ≤ 14) (htop : heapBase + mc.heapBytes ≤ 2 ^ 63)
     (hl : 128 ≤ mc.heapBytes) (ι : Nat → Nat) :
-    X3 mc α Γ (initConfig a args) (Scc.Heap.init heapBase (heapBase + mc.heapBytes)) ι
+    X3 mc cw τ Γ (initConfig a args) (Scc.Heap.init heapBase (heapBase + mc.heapBytes)) ι
       { regs := regs, mem := ∅, pc := e } := by
   obtain ⟨r, h1, hsz, hargs, hH, hF⟩ := entryRegs_spec args (by omega)
   rw [hr] at h1
@@ -117,7 +117,7 @@ theorem x3_init {mc : MonCfg} {α : Word → Word} {args : List Word} {regs : Ar
     obtain ⟨j, hj, ht, hv⟩ := initTemps_get_inv args 0 _ _ hw
     have hij : j = i := by omega
     subst hij
-    show ((regs[posReg (2 * j + 1)]?).join) = some (trW α .ext w)
+    show ((regs[posReg (2 * j + 1)]?).join) = some (trW .ext w (cw j))
     have : posReg (2 * j + 1) = 2 * j + 5 := by unfold posReg; omega
     rw [this, hargs j hj, hv]
     rfl
